@@ -19,7 +19,9 @@ a value stored in such a dict                  `DirTree`
 `DiffNode`                                     `DNode`;  `Optional[DiffNode]` = `Option DNode`
 `Dict[Path, DiffNode]` (removed/modified/…)    `List DNode` in insertion order, the key of an
                                                entry being the `path` of the stored node
-`set` of `str`                                 `List String` without duplicates (some order)
+`set` of `str`                                 `List String` without duplicates; a `for` loop over it
+                                               (or over the items / keys of a snapshot) visits
+                                               `ord _ xs` for a parameter `ord : IterOrd`
 a raised exception                             `Except.error (e : PyErr)`
 the interpreter's remaining recursion depth    the `Nat` fuel of a recursive function
 -/
@@ -33,9 +35,17 @@ inductive PyErr where
   /-- not a Python exception: the execution left the value dictionary (a `Dict[Path, DiffNode]`
   would hold a node under a key different from the node's own path). -/
   | unrepresentable
+  /-- not a Python exception: body of a function the translator could not translate. -/
+  | untranslated
 deriving DecidableEq, Repr
 
 abbrev M := Except PyErr
+
+/-- The order in which `for x in s` visits a `set`, or the items / keys of a dict that came from
+outside (the two snapshots): unspecified in Python, hence a parameter `ord` of every translated
+function with such a loop. The bridge theorems hold for every `ord` that returns a permutation of
+its argument. -/
+abbrev IterOrd := (α : Type) → List α → List α
 
 /-! ## entries: `None | str | dict` -/
 
